@@ -373,6 +373,18 @@ def rule_capture_snapshot(ctx) -> None:
                     and len(x.args[0].elts) == 2:
                 writers.append((f, x))
     ctx.floor("C10.STAGE", "capture-buffer write methods in logmux", len(writers), 1)
+    # the capture never refuses a record: append_jsonl answers ANY error of the buffer's write by writing the record through
+    # at once - i.e. during the compute phase, ahead of this agent's buffered lines and of earlier agents' staged ones - so a
+    # bounded capture buffer (a byte limit that raises when full) reorders the files as a function of that limit
+    for f, app in writers:
+        wcfg = ctx.cfg(f)
+        raises = [n for n in wcfg.nodes if n.kind == "stmt" and isinstance(n.ast, ast.Raise)]
+        appn = (wcfg.node_containing(app) or [None])[0]
+        skip = wcfg.path([wcfg.entry], lambda m: m is wcfg.exit, avoid=lambda m: m is appn, edge_ok=no_exc) if appn is not None else None
+        ctx.check(not raises and skip is None, "C10.STAGE", f"{f.qual}/capture-is-unconditional", f.loc(raises[0].ast) if raises else f.loc(app),
+                  "the capture buffer's write always appends: no raise, no path around the append",
+                  (f"`{src(raises[0].ast)[:40]}` lets the capture buffer refuse a record" if raises else "the capture buffer's write can return without appending the record") +
+                  ": append_jsonl then falls back to writing it through immediately (or it is lost), ahead of the lines still buffered / staged - per-file line order now depends on the limit")
     copies_inside = {}
     for f, app in writers:
         copies_inside[f.name] = _is_snapshot(ctx.rd(f), app.args[0].elts[1], (ctx.cfg(f).node_containing(app) or [None])[0])
